@@ -9,7 +9,7 @@
 From Coq Require Import ZArith QArith Qabs Qreals Reals List Bool.
 Import ListNotations.
 From PV Require Import C12.Spec Generated.Mangle C12.RBase Generated.MangleR C12.Model C12.Arccos C12.Proofs C12.SetUse
-  C12.Storage C12.Bridge C12.Region C12.RaDec C12.Loops C12.Tolerance C12.Ties.
+  C12.Storage C12.Bridge C12.Region C12.RaDec C12.Loops C12.Tolerance C12.Ties C12.Pointwise.
 Open Scope Z_scope.
 
 (* ---- the code's formula is the property's algebraic test (over the reals) ---- *)
@@ -409,6 +409,41 @@ Theorem C12_centre_not_in_neg_cap : forall cm d : R, (1 <= d)%R -> (-2 <= cm < 0
 Proof. exact centre_not_in_neg_cap. Qed.
 Print Assumptions C12_centre_not_in_neg_cap.
 
+(* ---- round 6: answers are point by point, whatever the number of points in the call ---- *)
+
+(* is_in_window on a list of points = the list of the answers each point gets when passed alone *)
+Theorem C12_in_window_pointwise : forall Ps ncaps pts, Forall wf_poly Ps ->
+  in_window Ps ncaps pts = map (window_answer Ps ncaps) pts.
+Proof. exact in_window_pointwise. Qed.
+Print Assumptions C12_in_window_pointwise.
+
+(* ... and that single answer is the first containing polygon *)
+Theorem C12_window_answer_spec : forall Ps ncaps p, Forall wf_poly Ps ->
+  window_answer Ps ncaps p =
+  match first_match Ps ncaps p with Some k => (true, Z.of_nat k) | None => (false, -1) end.
+Proof. exact window_answer_spec. Qed.
+Print Assumptions C12_window_answer_spec.
+
+(* one call with all the points = two calls with the two parts, concatenated *)
+Theorem C12_in_window_split : forall Ps ncaps a b, Forall wf_poly Ps ->
+  in_window Ps ncaps (a ++ b) = in_window Ps ncaps a ++ in_window Ps ncaps b.
+Proof. exact in_window_split. Qed.
+Print Assumptions C12_in_window_split.
+
+(* n positions holding copies of a few points (position j holds f (idx_j)): position j gets the answer of f (idx_j) *)
+Theorem C12_in_window_copies : forall Ps ncaps (f : nat -> vec) (idx : list nat), Forall wf_poly Ps ->
+  in_window Ps ncaps (map f idx) = map (fun i => window_answer Ps ncaps (f i)) idx.
+Proof. exact in_window_copies. Qed.
+Print Assumptions C12_in_window_copies.
+
+(* the same point at two positions of one call gets the same answer *)
+Theorem C12_in_window_same_point : forall Ps ncaps pts i j p ri rj, Forall wf_poly Ps ->
+  nth_error pts i = Some p -> nth_error pts j = Some p ->
+  nth_error (in_window Ps ncaps pts) i = Some ri -> nth_error (in_window Ps ncaps pts) j = Some rj ->
+  ri = rj.
+Proof. exact in_window_same_point. Qed.
+Print Assumptions C12_in_window_same_point.
+
 (* ---- non-vacuity witnesses ---- *)
 
 Definition ex_cap_z : cap := mkcap (0, 0, 1)%Q (1 # 2)%Q.           (* 60 degrees around the pole *)
@@ -466,4 +501,12 @@ Example ex_is_in_window_body :
 Proof. exact (eq_refl _). Qed.
 Example ex_is_in_polygon_body :
   gen_is_in_polygon_body 2 3 0 (incap_of [ex_cap_z; ex_cap_x] (1, 0, 0)%Q) = false.
+Proof. exact (eq_refl _). Qed.
+(* round 6: seven positions holding copies of three points; the answer is gathered through the same indices *)
+Example ex_window_copies :
+  in_window [mkpoly 1 1 [ex_cap_x]; ex_poly; mkpoly 0 0 []] 0
+            (map (fun i => nth i [(0, 0, 1); (1, 0, 0); (0, 0, -1)]%Q (0, 0, 1)%Q) [0; 1; 2; 2; 1; 0; 1]%nat)
+  = [(true, 0); (true, 2); (true, 0); (true, 0); (true, 2); (true, 0); (true, 2)].
+Proof. exact (eq_refl _). Qed.
+Example ex_window_answer : window_answer [ex_poly] 0 (1, 0, 0)%Q = (false, -1).
 Proof. exact (eq_refl _). Qed.
